@@ -536,3 +536,10 @@ Qed.
 (* the code as it is: a lone closing bracket is a success without any node *)
 Theorem jdoc_rootless_refuted : exists s, nz s /\ jdoc false false (fun _ => false) (s ++ [0]) = Ok (JAt 0, mkJ 0 (-1) 0).
 Proof. exists [93]. split; [repeat constructor; discriminate|vm_compute; reflexivity]. Qed.
+
+(* the tree as it is (T1: Facts.fact_json_rejects_rootless, observed by running jbn_from_json on a lone closing bracket) *)
+Lemma json_rejects_rootless_now : fact_json_rejects_rootless = true. Proof. reflexivity. Qed.
+Theorem jdoc_current_has_root : forall js rng b p st, jdoc_current js rng b = Ok (JAt p, st) -> j_nodes st <> 0.
+Proof. unfold jdoc_current. rewrite json_rejects_rootless_now. exact jdoc_has_root. Qed.
+Theorem jdoc_current_total : forall js rng s, nz s -> exists out st, jdoc_current js rng (s ++ [0]) = Ok (out, st).
+Proof. intros. apply jdoc_total. assumption. Qed.
